@@ -142,6 +142,7 @@ func runHTTPScenario(sc HScenario) hResult {
 	var created atomic.Int32
 	var inflightWg sync.WaitGroup
 	var inflight atomic.Int32
+	var handling atomic.Int64 // requests that have entered a route handler
 	var occMu sync.Mutex
 	occupied := map[int]bool{}
 	var busyNow, envClash atomic.Bool
@@ -158,6 +159,7 @@ func runHTTPScenario(sc HScenario) hResult {
 		for _, r := range c.Routes {
 			name := r.Name
 			rt, err := httpserver.NewRouteFromHandlerFunc(name, r.Path, func(w http.ResponseWriter, req *http.Request) {
+				handling.Add(1) // the request has reached its handler: it is in flight
 				if d := req.URL.Query().Get("sleep"); d != "" {
 					ms := 0
 					fmt.Sscanf(d, "%d", &ms)
@@ -375,8 +377,14 @@ func runHTTPScenario(sc HScenario) hResult {
 					rec.add("RQ:%d:refused:0", dur)
 					return
 				}
+				seen := handling.Load()
 				fmt.Fprintf(conn, "GET %s?sleep=%d HTTP/1.1\r\nHost: x\r\nConnection: close\r\n\r\n", path, dur)
-				time.Sleep(5 * time.Millisecond)
+				// the next operation comes only when the server is serving this request (a connection that was accepted
+				// but not yet read when the server is shut down is closed by net/http: not what these histories are about)
+				for i := 0; i < 1500 && handling.Load() == seen; i++ {
+					time.Sleep(200 * time.Microsecond)
+				}
+				time.Sleep(time.Millisecond)
 				close(started)
 				b, err := io.ReadAll(conn)
 				_ = conn.Close()
